@@ -99,7 +99,9 @@ def run(R):
         while owner.kind == "Closure" and owner.parent_key in P.fns:
             owner = P.fns[owner.parent_key]
         # (a) mutable borrows of engine fields in execute_result itself
-        if owner.key == rf.key:
+        engine_method = (owner.raw.get("impl_self") or "").endswith("aggregate_execution::AggregateExecutionEngine") and owner.arg_count >= 1 and \
+            owner.locals[1]["ty"].startswith("&mut ") and "AggregateExecutionEngine" in owner.locals[1]["ty"]
+        if owner.key == rf.key or (engine_method and g.key == owner.key):
             for i, s in g.stmts():
                 if s["k"] == "assign" and s["rv"]["k"] == "ref" and s["rv"]["bk"] == "mut" and s["rv"]["pl"]["l"] == 1:
                     flds = place_fields(s["rv"]["pl"])
